@@ -405,6 +405,7 @@ def impl_stepper(cfg, ops, chdir, hook=None):
     common.set_current(cur)
     w = make_writer(cfg, chdir)
     reports = []
+    kept = []       # a caller may keep the exceptions of refused calls (logging, retry queues): they stay alive
     for i, op in enumerate(ops):
         common.set_current(cur)
         cls, ret = 0, 0
@@ -426,6 +427,7 @@ def impl_stepper(cfg, ops, chdir, hook=None):
             cls, ret = errclass(e), 0
             if cls == 9:
                 ret = repr(e)[:200]
+            kept.append(e)
         reports.append([cls, int(ret) if not isinstance(ret, str) else ret, w.get_next_available_sample(),
                         w.get_total_samples_written(), w.get_total_gap_samples()])
         if hook:
